@@ -112,34 +112,39 @@ Follow(e, want) == IF Len(e.obs) = Len(want) THEN [p \in DOMAIN want |-> [want[p
 RelsName(n)   == "xl/worksheets/_rels/sheet" \o ToString(n) \o ".xml.rels"
 BagEq(q1, q2) == Len(q1) = Len(q2) /\ \A x \in SeqSet(q1) \cup SeqSet(q2) :
                      Cardinality({i \in DOMAIN q1 : q1[i] = x}) = Cardinality({i \in DOMAIN q2 : q2[i] = x})
-(* relationship ids a raw sheet uses that the relationship part found at its position does not define *)
-UnresPred(S, P, p) ==
-  LET d == Dec(P, p) IN
-  IF S[p].loaded THEN {}
-  ELSE orig[S[p].o].used \ (IF d.hasrels /\ ~S[d.relsfor].loaded THEN orig[S[d.relsfor].o].ids ELSE {})
+(* relationship ids a sheet uses that the relationship part found at its position does not define.  A raw sheet
+   uses the ids of the original; a materialised sheet that finds a raw sheet's relationship part instead of its own
+   uses the ids the writer gave it, which are the ones the twin's file shows (tu[p]) *)
+UnresPred(S, P, p, tu) ==
+  LET d == Dec(P, p)
+      foreign == d.hasrels /\ d.relsfor # p
+  IN IF S[p].loaded THEN (IF foreign THEN tu[p] \ orig[S[d.relsfor].o].ids ELSE {})
+     ELSE orig[S[p].o].used \ (IF d.hasrels THEN orig[S[d.relsfor].o].ids ELSE {})
+TwinUsed(e) == [p \in DOMAIN e.twpkg.sheets |-> ToSet(e.twpkg.sheets[p].used)]
 (* does the observed package have the part structure of P ? *)
-SheetPkgBad(S, P, pk, p) ==
+SheetPkgBad(S, P, pk, p, tu) ==
   LET d == Dec(P, p)
       x == pk.sheets[p]
       foreign == d.hasrels /\ d.relsfor # p          \* the relationship part of another (raw) sheet
   IN (IF x.name # S[p].name THEN {<<"name in workbook.xml", p, x.name>>} ELSE {}) \cup
-     (IF ToSet(x.unres) # UnresPred(S, P, p) THEN {<<"unresolved r:ids", p, x.unres>>} ELSE {}) \cup
+     (IF ToSet(x.unres) # UnresPred(S, P, p, tu) THEN {<<"unresolved r:ids", p, x.unres>>} ELSE {}) \cup
      (IF ~S[p].loaded \/ foreign
       THEN (IF x.rels # d.hasrels THEN {<<"relationship part present", p, x.rels>>} ELSE {}) \cup
            (IF d.hasrels /\ x.relsig # orig[S[d.relsfor].o].relsig
             THEN {<<"relationship part is not the one expected", p, d.relsfor>>} ELSE {})
       ELSE {}) \cup
      (IF ~BagEq(x.tablenames, d.tabnames) THEN {<<"tables", p, x.tablenames, d.tabnames>>} ELSE {})
-PkgBad(S, P, pk) ==
+PkgBad(S, P, pk, tu) ==
   IF ~PkgValid(pk) THEN {<<"package", [zip |-> pk.zip, wf |-> pk.wf, dup |-> pk.dup, ct |-> pk.ct,
                                        missing |-> pk.missing, nosheet |-> pk.nosheet]>>}
   ELSE IF Len(pk.sheets) # Len(S) THEN {<<"sheets in workbook.xml", Len(pk.sheets)>>}
   ELSE (IF ToSet(pk.orphans) # {RelsName(n) : n \in OrphanRels(P, S)} THEN {<<"orphan relationship parts", pk.orphans>>}
         ELSE {}) \cup
-       UNION {SheetPkgBad(S, P, pk, p) : p \in DOMAIN S}
+       UNION {SheetPkgBad(S, P, pk, p, tu) : p \in DOMAIN S}
 
-(* the eager reader gives up on a sheet that uses a relationship id its relationship part does not define *)
-ReloadPanics(S, P) == \E p \in DOMAIN S : UnresPred(S, P, p) # {}
+(* the eager reader may give up (panic) on a sheet that uses a relationship id its relationship part does not
+   define - whether it does depends on what the id is used for - and on nothing else *)
+ReloadMayPanic(S, P, tu) == \E p \in DOMAIN S : UnresPred(S, P, p, tu) # {}
 RelsAffected(S, P, p) == Dec(P, p).hasrels # Want(orig, S, p).hasrels \/ Dec(P, p).relsfor # Want(orig, S, p).relsfor
 TabsAffected(S, P, p) == Dec(P, p).tabnames # Want(orig, S, p).tabnames
 (* marks a reader finds: a table mark is found iff the relationship part at p leads to a table of that name *)
@@ -157,19 +162,20 @@ SheetReloadBad(S, P, e, p) ==
           (IF ToSet(x.v.marks) # MarksPred(S, P, p) \/ Len(x.v.marks) # Cardinality(MarksPred(S, P, p))
            THEN {<<"marks after reload", p, x.v.marks>>} ELSE {})
 ReloadBad(S, P, e) ==
-  IF ReloadPanics(S, P) THEN (IF e.lz.outcome = "panic" THEN {} ELSE {<<"reload outcome", e.lz.outcome>>})
+  IF ReloadMayPanic(S, P, TwinUsed(e)) /\ e.lz.outcome = "panic" THEN {}
   ELSE IF e.lz.outcome # "ok" THEN {<<"reload outcome", e.lz.outcome>>}
   ELSE IF Len(e.lz.sheets) # Len(S) THEN {<<"sheets after reload", Len(e.lz.sheets)>>}
   ELSE UNION {SheetReloadBad(S, P, e, p) : p \in DOMAIN S}
 
 (* the twin's save is the reference for materialised sheets: it must have worked *)
 TwinSaveBad(S, e) == \/ e.tw_outcome # "ok" \/ e.tw.outcome # "ok" \/ Len(e.tw.sheets) # Len(S)
+                     \/ Len(e.twpkg.sheets) # Len(S)
                      \/ \E p \in DOMAIN S : e.tw.sheets[p].name # S[p].name \/ ~MarksOK(e.tw.sheets[p].v, S[p])
 
 SaveBad(S, e, home, tabno, chart) ==
   IF SaveOutcome(orig, S, chart) = "panic" THEN (IF e.outcome = "panic" THEN {} ELSE {<<"save outcome", e.outcome>>})
   ELSE IF e.outcome # "ok" THEN {<<"save outcome", e.outcome, e.msg>>}
-  ELSE LET P == Pkg(orig, S, home, tabno) IN PkgBad(S, P, e.pkg) \cup ReloadBad(S, P, e)
+  ELSE LET P == Pkg(orig, S, home, tabno) IN PkgBad(S, P, e.pkg, TwinUsed(e)) \cup ReloadBad(S, P, e)
 
 (* ---- known findings: triggers (over the state being saved) and the design each one stands for -- *)
 TrigKF1(S) == \E p \in DOMAIN S : ~S[p].loaded /\ S[p].o # 0 /\ orig[S[p].o].rels /\ orig[S[p].o].pno # p
@@ -216,7 +222,9 @@ Step(e) ==
                    obad == IF e.outcome = "ok" THEN ObsBad(e, want) ELSE {}
                IN IF obad # {} THEN Mismatch(l, <<"impl", "Save", "state after save", Small(obad)>>)
                   ELSE IF fits # <<>> THEN HitsOf(fits[1], l)
-                  ELSE Mismatch(l, <<"impl", "Save", Small(SaveBad(sheets, e, "pos", "fresh", "cached"))>>)
+                  ELSE Mismatch(l, <<"impl", "Save", Small(SaveBad(sheets, e, "pos", "fresh", "cached")),
+                                     "open findings tried", [k \in 2..Len(Designs(sheets)) |->
+                                        LET d == Designs(sheets)[k] IN <<d, Small(SaveBad(sheets, e, d[1], d[2], d[3]))>>]>>)
 
 TraceInit == l = 1 /\ orig = <<>> /\ sheets = <<>>
 TraceNext == l <= Len(Rec) /\ l' = l + 1 /\ Step(Ev)
